@@ -61,7 +61,8 @@ U_Smoke(zz) == {
 SizedModes == {SzConst(0), SzConst(1), SzConst(2), SzField("pre"),
                Defer(EBin("mul", EF("pre"), EC(2))), Defer(EBin("sub", EF("pre"), EC(1))),
                Lam(EBin("add", EF("pre"), EC(1))), Lam(EBin("sub", EF("pre"), EC(2))),
-               Lam(EBin("sub", ERest, EC(1)))}
+               Lam(EBin("sub", ERest, EC(1))),
+               Defer(EBin("add", EC(1), EBin("floordiv", EC(2), EF("pre"))))}      \* raises for pre = 0, operands left behind
 MarkerModes(b) == {SzMarker(b, i, c) : i \in BOOLEAN, c \in BOOLEAN} \ {SzMarker(b, TRUE, FALSE)}
 RegexModes(r) == {SzRegex(r, i, c) : i \in BOOLEAN, c \in BOOLEAN} \ {SzRegex(r, TRUE, FALSE)}
 Windows == {-1, 0, 1, 2, 3}
@@ -160,7 +161,18 @@ U_C08_Shared(zz) == {CtlDecl(<<U1("t"), RefSelSharedF("v", EF("t"), SharedAlts, 
                            RefSelSharedF("w", EF("t"), SharedAlts, "T1", IntV(0)), U1("z")>>, 6),
                  CtlDecl(<<U1("t"), U1("n"), RepCountF("r", RefSelSharedF("e", EF("t"), SharedAlts, "T1", IntV(0)), SzField("n"), NoCond, 0),
                            RefSelSharedF("w", EF("t"), SharedAlts, "T1", IntV(0))>>, 6)}
-U_C08(zz) == U_C08_Count(0) \cup U_C08_Until(0) \cup U_C08_Opt(0) \cup U_C08_Nest(0) \cup U_C08_Shared(0)
+\* the controlling field is a DESCRIBED field (parsing reads what the bytes said, not what the descriptor computes)
+AutoLenOf(f, of) == WithDesc(f, [kind |-> "autolen", of |-> of])
+AutoE(f, e) == WithDesc(f, [kind |-> "auto", e |-> e])
+U_C08_Desc(zz) == {CtlDecl(<<AutoLenOf(U1("n"), "r"), U1("t"), RepCountF("r", U1("e"), c, NoCond, 0), U1("z")>>, 4) :
+                     c \in {SzField("n"), Defer(EBin("sub", EF("n"), EC(0))), Defer(EBin("mul", EF("n"), EC(2)))}}
+              \cup {CtlDecl(<<AutoE(U1("n"), EC(1)), OptF("o", U1("e"), w), U1("z")>>, 3) :
+                     w \in {SzField("n"), Defer(EBin("eq", EF("n"), EC(2)))}}
+              \cup {CtlDecl(<<AutoE(U1("n"), EC(0)), RefSelF("v", EF("n"), <<[key |-> 0, alt |-> IntF("", 1, FALSE, "default")],
+                                                                             [key |-> 1, alt |-> IntF("", 2, FALSE, "default")]>>, "chooses", IntV(0)),
+                             U1("z")>>, 4),
+                     CtlDecl(<<AutoLenOf(U1("n"), "d"), DataF("d", Defer(EBin("add", EF("n"), EC(0)))), U1("z")>>, 4)}
+U_C08(zz) == U_C08_Count(0) \cup U_C08_Until(0) \cup U_C08_Opt(0) \cup U_C08_Nest(0) \cup U_C08_Shared(0) \cup U_C08_Desc(0)
 
 \* -------------------------------------------------------------------- C10
 Refs == {"innermost-pkt", "begins", "current-offset"}
@@ -196,6 +208,16 @@ U_C10_Back(zz) == {DeclP([C0 |-> Class(DefaultOpts, <<MvField(IntF("a", 2, FALSE
               \cup {DeclP([C0 |-> Class(DefaultOpts, <<U1("h"), IntF("a", 2, FALSE, "default"),
                                                        MvField(U1("b"), [kind |-> "shift", arg |-> SzConst(0 - k), ref |-> "current-offset"]),
                                                        U1("c")>>)], {0, 1, 2}, 5, {0, 1}) : k \in {1, 2, 3}}
+\* the target of a Move is a DESCRIBED field: a parse goes where the bytes say (conformance only: the value a
+\* pack writes there is the computed one, so pack and unpack positions may legitimately differ)
+U_C10_Desc(zz) == {DeclP([C0 |-> Class(DefaultOpts, <<AutoE(U1("a"), EC(2)), MvField(U1("b"), mv), U1("c")>>)], {0, 1, 2, 3}, 5, {0, 1}) :
+                     mv \in {[kind |-> "at", arg |-> SzField("a"), ref |-> "innermost-pkt"],
+                              [kind |-> "shift", arg |-> SzField("a"), ref |-> "current-offset"],
+                              [kind |-> "aligned", arg |-> SzField("a"), ref |-> "innermost-pkt"]}}
+              \cup {DeclP([C0 |-> Class(DefaultOpts, <<U1("h"), RefF("s", "C1"), U1("t")>>),
+                           C1 |-> Class(DefaultOpts, <<AutoLenOf(U1("a"), "d"),
+                                                       MvField(DataF("d", SzConst(1)), [kind |-> "at", arg |-> SzField("a"), ref |-> "innermost-pkt"])>>)],
+                          {0, 1, 2, 3}, 5, {0})}
 U_C10(zz) == U_C10_Flat(0) \cup U_C10_Nest(0) \cup U_C10_Class(0) \cup U_C10_Elem(0) \cup U_C10_Back(0)
 
 \* -------------------------------------------------------------------- C03
@@ -256,6 +278,24 @@ U_C12(zz) ==
      DeclP([C0 |-> Class(DefaultOpts, <<U1("n"), DataF("d", Defer(EBin("sub", EF("n"), EC(2)))), DataF("e", Lam(EBin("sub", EF("n"), EC(3)))), U1("z")>>)],
            {0, 1, 2, 3, 4}, 5, {0})}
 
+\* -------------------------------------------------------------------- C04 extras
+\* a fixed-size Data alone in its block of generated code; fields placed past the end of the input (F13)
+EOSData(n) == DataF(n, SzRegex("EOS", FALSE, TRUE))
+U_C04_Lone(zz) ==
+    {DeclO(DefaultOpts, <<DataF("m", SzMarker(<<0>>, FALSE, TRUE)), DataF("d", SzConst(2)), DataF("n", SzMarker(<<0>>, TRUE, TRUE))>>, {0, 1, 65}, 5),
+     DeclO(DefaultOpts, <<IntF("a", 3, FALSE, "default"), DataF("d", SzConst(2)), IntF("b", 3, TRUE, "little")>>, {0, 255}, 8),
+     DeclO(DefaultOpts, <<DataF("d", SzConst(3))>>, {0, 65}, 4),
+     DeclO([DefaultOpts EXCEPT !.align = 2], <<IntF("a", 3, FALSE, "default"), EOSData("d")>>, {0, 1}, 5),
+     DeclO([DefaultOpts EXCEPT !.align = 4], <<U1("a"), EOSData("d"), EmF("tail")>>, {0, 1}, 5)}
+    \cup {DeclP([C0 |-> Class(DefaultOpts, <<U1("a"), MvField(EOSData("d"), mv), EmF("tail")>>)], {0, 1, 2}, 4, {0, 1}) :
+             mv \in {[kind |-> "at", arg |-> SzConst(3), ref |-> "innermost-pkt"],
+                      [kind |-> "shift", arg |-> SzField("a"), ref |-> "current-offset"],
+                      [kind |-> "aligned", arg |-> SzConst(4), ref |-> "innermost-pkt"]}}
+    \cup {DeclP([C0 |-> Class(DefaultOpts, <<U1("a"), MvField(f, [kind |-> "shift", arg |-> SzField("a"), ref |-> "current-offset"])>>),
+                 C1 |-> Sub1], {0, 1, 2}, 4, {0}) :
+             f \in {DataF("d", SzConst(0)), DataF("d", SzConst(1)), RepCountF("d", U1("e"), SzConst(0), NoCond, 0),
+                    DataF("d", SzMarker(<<0>>, FALSE, TRUE)), DataF("d", SzRegex("Ystar", TRUE, TRUE)), RefF("d", "C1")}}
+
 \* -------------------------------------------------------------------- C01 / C14
 \* mixed declarations; C01 leaves out what the property excludes (non-kept regex delimiters other
 \* than EOS, consume_delimiter=False) and described fields.
@@ -278,10 +318,29 @@ U_C01_Overlap(zz) == {DeclP([C0 |-> Class(DefaultOpts, <<U1("a"), DataF("b", SzC
 U_C01_Before(zz) == {DeclP([C0 |-> Class(DefaultOpts, <<MvField(DataF("a", SzConst(n1)), [kind |-> "at", arg |-> SzConst(p1), ref |-> "innermost-pkt"]),
                                                      MvField(DataF("b", SzConst(n2)), [kind |-> "at", arg |-> SzConst(p2), ref |-> "innermost-pkt"])>>)],
                        {0, 1, 46}, 6, {0, 1}) : n1 \in {1, 2}, p1 \in {2, 4}, n2 \in {1, 3, 4}, p2 \in {0, 1, 2}}
-U_C01(zz) == U_C01_Before(0) \cup U_C10_Back(0) \cup U_C01_Data(0) \cup U_C01_Move(0) \cup U_C01_Ctl(0) \cup U_C01_Overlap(0) \cup U_C07_24(0) \cup U_C07_Ctx(0)
+\* the `root` keyword of callables: the packet that started the operation, read from one and two levels down,
+\* below optional / repeated / selected fields
+RootSel == RefSelF("e", ERoot("w"), <<[key |-> 0, alt |-> IntF("", 1, FALSE, "default")],
+                                      [key |-> 1, alt |-> IntF("", 2, FALSE, "default")],
+                                      [key |-> 2, alt |-> DataF("", SzConst(1))]>>, "lambda", IntV(0))
+RootFields == {DataF("d", Lam(ERoot("w"))),
+               OptF("o", DataF("e", Lam(ERoot("w"))), SzField("t")),
+               OptF("o", U1("e"), Lam(EBin("gt", ERoot("w"), EC(1)))),
+               RepCountF("r", U1("e"), Lam(ERoot("w")), NoCond, 0),
+               RepCountF("r", DataF("e", Lam(ERoot("w"))), SzField("t"), NoCond, 0),
+               MvField(U1("b"), [kind |-> "at", arg |-> Lam(EBin("add", ERoot("w"), EC(1))), ref |-> "innermost-pkt"]),
+               OptF("o", RootSel, SzField("t")),
+               RepCountF("r", RootSel, SzField("t"), NoCond, 0)}
+U_C01_Root(zz) == {DeclP([C0 |-> Class(DefaultOpts, <<U1("w"), RefF("s", "C1"), U1("z")>>),
+                          C1 |-> Class(DefaultOpts, <<U1("t"), x>>)], {0, 1, 2}, 6, {0, 1}) : x \in RootFields}
+              \cup {DeclP([C0 |-> Class(DefaultOpts, <<U1("w"), OptF("s", RefF("e", "C1"), SzField("w")), U1("z")>>),
+                           C1 |-> Class(DefaultOpts, <<U1("h"), RefF("s", "C2")>>),
+                           C2 |-> Class(DefaultOpts, <<U1("t"), x>>)], {0, 1, 2}, 6, {0}) :
+                      x \in {DataF("d", Lam(ERoot("w"))), OptF("o", DataF("e", Lam(ERoot("w"))), SzField("t"))}}
+U_C01(zz) == U_C08_Shared(0) \cup U_C01_Root(0) \cup U_C01_Before(0) \cup U_C10_Back(0) \cup U_C01_Data(0) \cup U_C01_Move(0) \cup U_C01_Ctl(0) \cup U_C01_Overlap(0) \cup U_C07_24(0) \cup U_C07_Ctx(0)
 
 \* the every-change subset: every family is represented, the cross products are thinned
-U_C01_Q(zz) == U_C01_Data(0) \cup U_C01_Overlap(0) \cup U_C07_24(0) \cup U_C01_Before(0) \cup U_C10_Back(0)
+U_C01_Q(zz) == U_C08_Shared(0) \cup U_C01_Root(0) \cup U_C01_Data(0) \cup U_C01_Overlap(0) \cup U_C07_24(0) \cup U_C01_Before(0) \cup U_C10_Back(0)
            \cup {[d EXCEPT !.alpha = {0, 1, 46}] : d \in U_C10_Class(0) \cup U_C10_Elem(0)}
            \cup {[d EXCEPT !.alpha = {0, 2, 46}, !.starts = {0}] : d \in U_C10_Flat(0)}
            \cup U_C08_Until(0) \cup U_C08_Nest(0)
@@ -319,6 +378,10 @@ PickU(n) ==
       [] n = "U_C08_Opt" -> U_C08_Opt(0)
       [] n = "U_C08_Nest" -> U_C08_Nest(0)
       [] n = "U_C08_Shared" -> U_C08_Shared(0)
+      [] n = "U_C08_Desc" -> U_C08_Desc(0)
+      [] n = "U_C10_Desc" -> U_C10_Desc(0)
+      [] n = "U_C04_Lone" -> U_C04_Lone(0)
+      [] n = "U_C01_Root" -> U_C01_Root(0)
       [] n = "U_C08" -> U_C08(0)
       [] n = "U_C10_Flat" -> U_C10_Flat(0)
       [] n = "U_C10_Nest" -> U_C10_Nest(0)
